@@ -11,7 +11,22 @@ use std::path::Path;
 
 const PROJ: &str = "proj";
 
+/// `rc` cases: the alias `@pkg` is configured by proj/.luaurc (`use_luau_configuration: true`) instead of the rule / bundle
+/// configuration, and every darklua run is preceded -- on the same thread -- by a run over a DECOY project whose `.luaurc`
+/// gives `pkg` another target: what a run resolves must not depend on what the thread processed before.
+static RC: std::sync::atomic::AtomicBool = std::sync::atomic::AtomicBool::new(false);
+fn rc() -> bool {
+    RC.load(std::sync::atomic::Ordering::SeqCst)
+}
+
 fn mode_config(mode: &str, mfn: &str) -> String {
+    if rc() {
+        return if mode == "luau" {
+            "{ name: 'luau', use_luau_configuration: true }".to_string()
+        } else {
+            format!("{{ name: 'path', module_folder_name: '{}', use_luau_configuration: true }}", mfn)
+        };
+    }
     if mode == "luau" {
         "{ name: 'luau', use_luau_configuration: false, aliases: { '@pkg': './lib' } }".to_string()
     } else {
@@ -48,7 +63,31 @@ fn setup(fs: &[String], src: &str, entry: &str) -> Resources {
             .expect("write memory file");
     }
     resources.write(format!("{}/{}", PROJ, src), entry).expect("write entry");
+    if rc() {
+        resources.write(format!("{}/.luaurc", PROJ), "{ \"aliases\": { \"pkg\": \"./lib\" } }").expect("write .luaurc");
+    }
     resources
+}
+
+/// the decoy run of an `rc` case: same requiring file, `pkg` -> ./decoy (which holds a copy of ./lib)
+fn decoy_run(fs: &[String], src: &str, entry: &str, cfg_text: &str, prefix: &str) {
+    if !rc() {
+        return;
+    }
+    let resources = setup(fs, src, entry);
+    for f in fs {
+        if let Some(rest) = f.strip_prefix("lib/") {
+            resources.write(format!("{}/decoy/{}", PROJ, rest), &format!("return 'MARK:decoy/{}'", rest)).expect("write decoy");
+        }
+    }
+    resources.write(format!("{}/.luaurc", PROJ), "{ \"aliases\": { \"pkg\": \"./decoy\" } }").expect("write .luaurc");
+    if let Ok(config) = json5::from_str::<Configuration>(cfg_text) {
+        let config = config.with_location(format!("{}{}", prefix, PROJ));
+        let input = format!("{}{}/{}", prefix, PROJ, src);
+        let _ = guarded(|| {
+            darklua_core::process(&resources, Options::new(Path::new(&input)).with_output("out/decoy.lua").with_configuration(config)).map(|_| ())
+        });
+    }
 }
 
 fn classify_error(msg: &str) -> String {
@@ -78,6 +117,7 @@ fn bundle_target(fs: &[String], src: &str, entry: &str, mode: &str, mfn: &str, p
         "{{ generator: 'dense', rules: [], bundle: {{ require_mode: {} }} }}",
         mode_config(mode, mfn)
     );
+    decoy_run(fs, src, entry, &cfg_text, prefix);
     let config: Configuration = match json5::from_str(&cfg_text) {
         Ok(c) => c,
         Err(e) => return format!("!config:{}", e),
@@ -121,6 +161,7 @@ fn convert(fs: &[String], src: &str, entry: &str, cur: &str, tgt: &str, mfn: &st
         mode_config(cur, mfn),
         mode_config(tgt, mfn)
     );
+    decoy_run(fs, src, entry, &cfg_text, prefix);
     let config: Configuration = json5::from_str(&cfg_text).map_err(|e| format!("!config:{}", e))?;
     let config = config.with_location(format!("{}{}", prefix, PROJ));
     let input = format!("{}{}/{}", prefix, PROJ, src);
@@ -161,6 +202,7 @@ pub fn main(args: &[String]) -> i32 {
         let fs: Vec<String> = c["fs"].as_array().unwrap().iter().map(|v| v.as_str().unwrap().to_string()).collect();
         let entry = format!("return require('{}')", req);
         let prefix = c["prefix"].as_str().unwrap_or("");
+        RC.store(c["rc"].as_bool().unwrap_or(false), std::sync::atomic::Ordering::SeqCst);
         let got = bundle_target(&fs, src, &entry, mode, mfn, prefix);
         // "?path": resolved to `path`, which darklua then refused to load (reported as an error value)
         let unloadable = got.starts_with('?');
@@ -170,7 +212,7 @@ pub fn main(args: &[String]) -> i32 {
             "reqp": path_segs(req), "srcp": path_segs(src), "mfnp": seg_json(mfn),
             "fsp": fs.iter().map(|f| path_segs(f)).collect::<Vec<_>>(),
             "got": got, "gotp": if got.starts_with('!') { json!([]) } else { path_segs(&got) },
-            "unloadable": unloadable, "conv": 0, "target": "", "newreq": "", "newreqp": [], "got2": "", "got2p": [],
+            "unloadable": unloadable, "rc": c["rc"].as_bool().unwrap_or(false), "conv": 0, "target": "", "newreq": "", "newreqp": [], "got2": "", "got2p": [],
         });
         // the folder name is a parameter of the path mode only (the luau mode is fixed to `init`)
         if !got.starts_with('!') && !unloadable && (mfn == "init" || mode == "path") && c["convert"].as_bool().unwrap_or(true) {
